@@ -21,9 +21,12 @@ def run_comp(res, tier, seed, replay, mode, inputs, types='double', clause_filte
         trace = vlib.parallel_record(exe, lines, wd, 'comp', extra=['--modes', mode, '--types', types])
         ev = vlib.count_events(trace)
         res.cov['event_counts'] = ev
-        v = vlib.validate_trace('Trace_Comp', 'Trace_Comp.cfg', trace, start_event=None)
+        v = vlib.validate_trace('Trace_Comp', 'Trace_Comp.cfg', trace, start_event=None, env={'DIAGN': '4' if tier == 'quick' else '6'})
         n = sum(ev.values())
         res.add_validation(v, n)
+        if v.get('ndiag'):
+            res.cov['model_binding'] = {'events_compared_with_Collections_model': v['ndiag'], 'differences': v['diags'],
+                                        'note': 'diagnostic only: Horton / isometric candidate sets of the code vs the sets Collections.tla derives from the canonical lexicographic trees'}
         res.cov['evaluations'] = n
         with open(trace) as f:
             for k, ln in enumerate(f):
